@@ -507,7 +507,7 @@ func (inst *InstCall) Operands() []*value.Value {
 	ops := make([]*value.Value, 0, 1+len(inst.Args))
 	ops = append(ops, &inst.Callee)
 	for i := range inst.Args {
-		ops = append(ops, &inst.Args[i])
+		ops = append(ops, argOperand(inst.Args, i))
 	}
 	for _, bundle := range inst.OperandBundles {
 		for i := range bundle.Inputs {
